@@ -40,7 +40,7 @@ def run(ctx):
     # quick: every id-reuse variant of every graph; thorough: all variants up to n + m <= 6, every 8th graph beyond
     reuse_full, reuse_k = (6, 1) if quick else (6, 8)
     r = run_db(ctx, PROFILE, n, steps, seed_off=17)
-    r = add_big(ctx, r, 60 if ctx.tier == "quick" else 1500)
+    r = add_big(ctx, r, 120 if ctx.tier == "quick" else 2500, profile="bigpath")
     s = run_dbsmall(ctx, nodes, edges, paths=True, traverse=False, sub="small", reuse_full=reuse_full, reuse_k=reuse_k)
     m = merge_runs(r, s)
     scope = "every graph with m >= 1" if reuse_k == 1 else "all graphs with m >= 1 and (n <= 2 or n + m <= %d) and every %dth of the remaining graphs" % (reuse_full, reuse_k)
